@@ -571,6 +571,8 @@ def check_hooks(config, outcome_class, exp, events, tags, mw_tags,
         if mw_tags and not crashed:
             want_enter = list(mw_tags)[::-1]  # last in list is outermost
             for p in exp.resolved:
+                if p in exp.uncalled:
+                    continue  # argument coercion failed: nothing is called
                 seq = mw.get(p, [])
                 enters = [t for _, k, t in seq if k == "mw_enter"]
                 exits = [t for _, k, t in seq if k == "mw_exit"]
